@@ -81,4 +81,15 @@ def signalAfterFinalize (writesFirst pushFails : Bool) (c : Cause) : Option St :
   if writesFirst then some (finalState c)
   else if pushFails then none else some (finalState c)
 
+/-- bootstrap_0.sh after its monitoring loop: `wait $AGENT_PID` and the exit code the script goes on with.  With
+    `rightAfterWait` (read from the script: `AGENT_EXITCODE=$?` is the command that follows the `wait`) it is the agent's;
+    with another command in between it is that command's (0 for an `echo`) -/
+def collectedCode (rightAfterWait : Bool) (agentCode : Nat) : Nat := if rightAfterWait then agentCode else 0
+
+/-- the exit code of the pilot job: 0 when the agent wrote down a final state, the collected code otherwise -/
+def jobExit (rightAfterWait : Bool) (signal : Option St) (agentCode : Nat) : Nat :=
+  match signal with
+  | some _ => 0
+  | none   => collectedCode rightAfterWait agentCode
+
 end RPVerif.AgentCause
